@@ -37,9 +37,56 @@ type bodyElement struct {
 type paragraphXML struct {
 	XMLName       xml.Name          `xml:"p"`
 	Properties    paragraphPropsXML `xml:"pPr"`
-	Runs          []runXML          `xml:"r"`
-	Hyperlinks    []hyperlinkXML    `xml:"hyperlink"`
+	Runs          []runXML          `xml:"r"` // in document order, including runs nested in hyperlinks, insertions and content controls
 	BookmarkStart []bookmarkXML     `xml:"bookmarkStart"`
+}
+
+// UnmarshalXML decodes a paragraph, collecting its runs in document order.
+// Runs nested inside inline containers (hyperlinks, tracked insertions, smart
+// tags, simple fields and content controls) are part of the visible text and
+// are collected in place; deleted content is skipped.
+func (p *paragraphXML) UnmarshalXML(d *xml.Decoder, start xml.StartElement) error {
+	p.XMLName = start.Name
+	depth := 0
+	for {
+		tok, err := d.Token()
+		if err != nil {
+			return err
+		}
+		switch el := tok.(type) {
+		case xml.StartElement:
+			switch el.Name.Local {
+			case "pPr":
+				if depth == 0 {
+					err = d.DecodeElement(&p.Properties, &el)
+				} else {
+					err = d.Skip()
+				}
+			case "r":
+				var run runXML
+				if err = d.DecodeElement(&run, &el); err == nil {
+					p.Runs = append(p.Runs, run)
+				}
+			case "bookmarkStart":
+				var b bookmarkXML
+				if err = d.DecodeElement(&b, &el); err == nil {
+					p.BookmarkStart = append(p.BookmarkStart, b)
+				}
+			case "hyperlink", "ins", "smartTag", "fldSimple", "sdt", "sdtContent", "customXml":
+				depth++
+			default:
+				err = d.Skip()
+			}
+			if err != nil {
+				return err
+			}
+		case xml.EndElement:
+			if depth == 0 {
+				return nil
+			}
+			depth--
+		}
+	}
 }
 
 // paragraphPropsXML represents paragraph properties (<w:pPr>).
@@ -100,14 +147,69 @@ type outlineLvlXML struct {
 
 // runXML represents a text run (<w:r>).
 type runXML struct {
-	XMLName          xml.Name              `xml:"r"`
-	Properties       runPropsXML           `xml:"rPr"`
-	Text             []textXML             `xml:"t"`
-	Tabs             []tabXML              `xml:"tab"`
-	Breaks           []breakXML            `xml:"br"`
-	Drawing          []drawingXML          `xml:"drawing"`
-	Symbols          []symXML              `xml:"sym"`
-	AlternateContent []alternateContentXML `xml:"AlternateContent"`
+	XMLName    xml.Name     `xml:"r"`
+	Properties runPropsXML  `xml:"rPr"`
+	Drawing    []drawingXML `xml:"drawing"`
+	Items      []runItemXML // inline content in document order
+}
+
+// runItemXML is one inline child of a run: exactly one field is set.
+type runItemXML struct {
+	Text             *textXML
+	Tab              *tabXML
+	Break            *breakXML
+	Symbol           *symXML
+	AlternateContent *alternateContentXML
+}
+
+// UnmarshalXML decodes a run, keeping its inline children (text, tabs,
+// breaks, symbols, alternate content) in document order.
+func (r *runXML) UnmarshalXML(d *xml.Decoder, start xml.StartElement) error {
+	r.XMLName = start.Name
+	for {
+		tok, err := d.Token()
+		if err != nil {
+			return err
+		}
+		switch el := tok.(type) {
+		case xml.StartElement:
+			switch el.Name.Local {
+			case "rPr":
+				err = d.DecodeElement(&r.Properties, &el)
+			case "t":
+				v := new(textXML)
+				err = d.DecodeElement(v, &el)
+				r.Items = append(r.Items, runItemXML{Text: v})
+			case "tab":
+				v := new(tabXML)
+				err = d.DecodeElement(v, &el)
+				r.Items = append(r.Items, runItemXML{Tab: v})
+			case "br":
+				v := new(breakXML)
+				err = d.DecodeElement(v, &el)
+				r.Items = append(r.Items, runItemXML{Break: v})
+			case "sym":
+				v := new(symXML)
+				err = d.DecodeElement(v, &el)
+				r.Items = append(r.Items, runItemXML{Symbol: v})
+			case "AlternateContent":
+				v := new(alternateContentXML)
+				err = d.DecodeElement(v, &el)
+				r.Items = append(r.Items, runItemXML{AlternateContent: v})
+			case "drawing":
+				var v drawingXML
+				err = d.DecodeElement(&v, &el)
+				r.Drawing = append(r.Drawing, v)
+			default:
+				err = d.Skip()
+			}
+			if err != nil {
+				return err
+			}
+		case xml.EndElement:
+			return nil
+		}
+	}
 }
 
 // symXML represents a symbol character (<w:sym>).
@@ -227,12 +329,6 @@ type docPrXML struct {
 // blipXML represents an image reference.
 type blipXML struct {
 	Embed string `xml:"embed,attr"` // Relationship ID
-}
-
-// hyperlinkXML represents a hyperlink.
-type hyperlinkXML struct {
-	ID   string   `xml:"id,attr"`
-	Runs []runXML `xml:"r"`
 }
 
 // bookmarkXML represents a bookmark.
